@@ -84,6 +84,23 @@ ROUND7 = {
  "C20": " Round 7: corpus cases with the library's MemSource over a sample vector holding a stray value.",
 }
 
+ROUND8 = {
+ "C01": " Round 8: sources that chain inner sources (empty block ahead of the data) and sources that switch between integer and byte delivery inside one stream in the common generator; stereo signals whose channel relation changes inside the signal.",
+ "C02": " Round 8: chained and mixed-delivery sources (common generator).",
+ "C03": " Round 8: mixed integer/byte delivery in both thread modes; a packet-oriented source whose over-long offers are refused and retried must leave no trace in total or MD5.",
+ "C05": " Round 8: 'manyworkers' scenarios with 129..1024 workers (configuration or environment) and enough frames for every buffer to be recycled.",
+ "C06": " Round 8: injected read failures carry every SourceError flavour (from_unknown, by_reason, from_io_error of kinds Interrupted / WouldBlock / UnexpectedEof / TimedOut).",
+ "C08": " Round 8: 'built' - streams assembled with the public constructors (LPC coefficient vectors with zero taps included) counted against the bits written, as constructed and as parsed back.",
+ "C09": " Round 8: stereo signals whose channel relation changes inside a block (identical / independent loud noise / inverted pieces).",
+ "C10": " Round 8: 'oneknob' - the same single-block input twice on one thread under configurations that differ in exactly one field (every field in turn), stream and frame level.",
+ "C11": " Round 8: frames written into the user sink, MemSink<u8> and MemSink<u64> that already hold 1..7 bits, serialised on the fly and from a precomputed bitstream: one bit sequence.",
+ "C14": " Round 8: 'bigblocks' (48Ki..256Ki interleaved samples per block, 2-8 channels, both thread modes, stated total checked) and stream pairs from pipe-style sources in both thread modes.",
+ "C15": " Round 8: constructed streams hold LPC coefficient vectors with zero taps.",
+ "C17": " Round 8: one out-of-range sample at every position of blocks of 100 / 191 samples and around the vector boundaries of longer ones, frame and stream level, under configurations without predictors too; frame-level encodes with a StreamInfo deserialised from a document (fix 59ba97d).",
+ "C18": " Round 8: constructor arguments handed out by the crate's parser (foreign residuals / subframes with 5-bit Rice parameters above 14; fix 1dfe8d1); Frame::new with a single odd subframe at a random channel; Lpc::new with zero taps.",
+ "C19": " Round 8: 'alphabits' - window parameters uniform over the f32 bit patterns of [0, 1]; index 0 reproduces the known finding C19|roundtrip-differs|alpha-bits=0x15ae43fd on every run.",
+}
+
 TODO_REASON = "monitor not built yet in this round (work in progress; will be claimed once its check exists)"
 
 ALL = ["C%02d" % i for i in range(1, 21)]
@@ -126,6 +143,7 @@ def main():
             continue
         level, technique, text, note, ref = claimed[pid]
         text += ROUND7.get(pid, "")
+        text += ROUND8.get(pid, "")
         q, t = passes(pid)
         if t:
             technique += "; sanitizer passes: quick [" + ", ".join(q) + "], thorough [" + ", ".join(t) + "]"
